@@ -132,6 +132,8 @@ var vfSelfCheckEvery = func() int64 {
 func vfExplore(r *vfRun, cfg *vfExploreCfg) {
 	seen := map[string]struct{}{}
 	nv0 := r.totalViolations()
+	defer r.unmark()
+	r.mark(vfCase{Scenario: cfg.Scenario, Name: cfg.Name}) // (a crash of the process while the start state is built or re-built is attributed too)
 	canon0, obs0, en0, p0 := vfRunHistory(r, cfg, nil, true, false)
 	r.res.Executions++
 	if p0 != "" && strings.Contains(p0, "blocked goroutines remain") && r.totalViolations() > nv0 {
@@ -143,6 +145,7 @@ func vfExplore(r *vfRun, cfg *vfExploreCfg) {
 	}
 	// determinism self-test on the initial state
 	canon0b, obs0b, _, _ := vfRunHistory(r, cfg, nil, false, false)
+	r.unmark()
 	if canon0 != canon0b || obs0 != obs0b {
 		r.harnessError("nondeterministic initial state in scenario %s:\n%s", cfg.Name, vfDiff(canon0+obs0, canon0b+obs0b))
 		return
@@ -201,7 +204,9 @@ func vfExplore(r *vfRun, cfg *vfExploreCfg) {
 					if (selfTests < 5 && depth >= 2) || (vfSelfCheckEvery > 0 && r.res.Executions%vfSelfCheckEvery == 0) {
 						selfTests++
 						r.count("determinism_selfchecks", 1)
+						r.mark(c) // the second run can crash the process where the first did not (runtime select order)
 						canonB, obsB, _, _ := vfRunHistory(r, cfg, h, false, leaf)
+						r.unmark()
 						if canonB != canon || obsB != obs {
 							r.harnessError("nondeterministic replay in scenario %s history %v:\n%s", cfg.Name, h, vfDiff(canon+"\n"+obs, canonB+"\n"+obsB))
 							return
